@@ -308,3 +308,51 @@ fn project_opt_enum(reg: &Registry, ws: &TypeSchema, rs: &TypeSchema, v: &View, 
         _ => panic!("project_opt_enum: kinds differ"),
     }
 }
+
+
+/// Indices above every index the schema generator ever uses (<= 300 plus a few chain steps).
+pub const UNKNOWN_INDEX_BASE: u64 = 340;
+
+/// Add fields unknown to *every* version of every generated type to the field containers of a
+/// marked encoding (markers removed in the result): array bodies are padded with nulls and get
+/// arbitrary items at indices >= UNKNOWN_INDEX_BASE, map bodies get arbitrary items under keys
+/// >= UNKNOWN_INDEX_BASE appended after the known keys (ascending order is kept).  `pct` is the
+/// probability per container.  Returns the item and the number of injected fields.
+pub fn inject_unknown(i: &Item, rng: &mut vcore::rng::Rng, pct: u64, n: &mut u32) -> Item {
+    match i {
+        Item::Tag { v, inner, .. } if *v == M_BODY => {
+            let body = inject_unknown(inner, rng, pct, n);
+            if !rng.chance(pct, 100) {
+                return body;
+            }
+            match body {
+                Item::Array { w: Some(_), mut items } => {
+                    let upto = UNKNOWN_INDEX_BASE as usize + rng.usize_below(3);
+                    while items.len() < upto {
+                        items.push(Item::null())
+                    }
+                    for _ in 0..1 + rng.below(2) {
+                        items.push(vcore::gen::gen_hot_item(rng, 3));
+                        *n += 1;
+                    }
+                    Item::array(items)
+                }
+                Item::Map { w: Some(_), mut items } => {
+                    let mut key = UNKNOWN_INDEX_BASE + rng.below(700);
+                    for _ in 0..1 + rng.below(2) {
+                        items.push((Item::uint(key), vcore::gen::gen_hot_item(rng, 3)));
+                        key += 1 + rng.below(70_000);
+                        *n += 1;
+                    }
+                    Item::map(items)
+                }
+                other => other,
+            }
+        }
+        Item::Tag { v, inner, .. } if is_marker(*v) => inject_unknown(inner, rng, pct, n),
+        Item::Tag { w, v, inner } => Item::Tag { w: *w, v: *v, inner: Box::new(inject_unknown(inner, rng, pct, n)) },
+        Item::Array { w, items } => Item::Array { w: *w, items: items.iter().map(|x| inject_unknown(x, rng, pct, n)).collect() },
+        Item::Map { w, items } => Item::Map { w: *w, items: items.iter().map(|(k, x)| (inject_unknown(k, rng, pct, n), inject_unknown(x, rng, pct, n))).collect() },
+        x => x.clone(),
+    }
+}
